@@ -795,6 +795,12 @@ func (state *RuntimeState) getUsernameIfKeymasterSigned(VerifiedChains [][]*x509
 		if len(chain) < 2 {
 			continue
 		}
+		// Role requesting (IP restricted) certs are issued under their own CA
+		// cert (which shares the signer key): they are not user certs and are
+		// only usable via the IP restricted path.
+		if bytes.Equal(chain[1].Raw, state.selfRoleCaCertDer) {
+			continue
+		}
 		username := chain[0].Subject.CommonName
 		//keymaster certs as signed directly
 		certSignerPKFingerprint, err := getKeyFingerprint(chain[1].PublicKey)
